@@ -4,12 +4,14 @@ package ev
 
 import (
 	"bufio"
+	"bytes"
 	"crypto/sha256"
 	"encoding/hex"
 	"encoding/json"
 	"flag"
 	"fmt"
 	"os"
+	"os/exec"
 	"path/filepath"
 	"sort"
 	"strconv"
@@ -100,6 +102,9 @@ func Start(id, level string) *Run {
 	}
 	r.Replay = *flagReplay
 	r.Budget = *flagBudget
+	if r.Replay != "" {
+		replay(id, r.Replay)
+	}
 	r.loadKnown()
 	r.Assume = append(r.Assume,
 		"compat overlay (DESIGN.md §1.2): base/errors.CleanUp[Ctx], retry.MaxRetries, limitbuf options, bigmachine rpc client func()(io.Reader,error) case, exec/config.go stubbed",
@@ -355,4 +360,54 @@ func Parallel(n, w int, f func(i int)) {
 func Hash(s string) string {
 	h := sha256.Sum256([]byte(s))
 	return hex.EncodeToString(h[:8])
+}
+
+// ReplayHandler, if set by a harness before Start, re-executes a recorded counterexample
+// from its detail and reports what it observed; it returns false if it cannot.
+var ReplayHandler func(detail json.RawMessage) bool
+
+// replay implements `./run <ID> quick -replay <file>`: it prints the recorded
+// counterexample, re-executes it where the harness (or the mc driver, for failing
+// schedules) knows how, and exits 0. It never writes evidence.
+func replay(id, path string) {
+	b, err := os.ReadFile(path)
+	if err != nil {
+		Fatal("replay: %v", err)
+	}
+	var rec struct {
+		Property  string `json:"property"`
+		Violation struct {
+			Signature string          `json:"signature"`
+			What      string          `json:"what"`
+			Detail    json.RawMessage `json:"detail"`
+		} `json:"violation"`
+	}
+	if err := json.Unmarshal(b, &rec); err != nil {
+		Fatal("replay: %s is not a replay file: %v", path, err)
+	}
+	if rec.Property != "" && rec.Property != id {
+		Fatal("replay: %s belongs to property %s, not %s", path, rec.Property, id)
+	}
+	fmt.Printf("REPLAY property=%s\n  signature: %s\n  what: %s\n", id, rec.Violation.Signature, rec.Violation.What)
+	var mcd struct {
+		Plan    json.RawMessage `json:"plan"`
+		Choices []int           `json:"choices"`
+	}
+	switch {
+	case ReplayHandler != nil && ReplayHandler(rec.Violation.Detail):
+	case json.Unmarshal(rec.Violation.Detail, &mcd) == nil && mcd.Plan != nil && mcd.Choices != nil:
+		// a failing schedule found by the vsched explorer: re-execute it twice in a child
+		rq, _ := json.Marshal(map[string]interface{}{"plan": mcd.Plan, "choices": mcd.Choices})
+		cmd := exec.Command(os.Args[0], "-mc-replay", string(rq))
+		cmd.Stdout, cmd.Stderr = os.Stdout, os.Stderr
+		if err := cmd.Run(); err != nil {
+			fmt.Printf("  re-execution failed to run: %v\n", err)
+		}
+	default:
+		var pretty bytes.Buffer
+		if json.Indent(&pretty, rec.Violation.Detail, "  ", " ") == nil {
+			fmt.Printf("  detail (the complete failing input / history / fault; re-run the check to re-execute it):\n  %s\n", pretty.String())
+		}
+	}
+	os.Exit(0)
 }
